@@ -54,9 +54,44 @@ theorem C01_parse_append (st : RState α) (fs gs : List (DFrame α)) :
       | (ms, .error e) => (ms, .error e) :=
   parse_append st fs gs
 
+/-- **Any sequence of messages.** The frames of `ms`, one message after the
+    other, reassemble to exactly `ms`: same number, same order, same
+    boundaries, same bytes (an empty message included). -/
+theorem C01_sendAll_many (cm : Nat) (hcm : 0 < cm) (ms : List (List α)) :
+    parse none (ms.flatMap (sendAll cm)) = (ms, .ok none) := by
+  induction ms with
+  | nil => simp [parse]
+  | cons m ms ih =>
+    rw [List.flatMap_cons, parse_append, C01_sendAll_reassembles cm hcm m]
+    simp [ih]
+
+/-- no frame of the revision-zero sender carries more than `cm` payload bytes -/
+theorem C01_sendAllFuel_chunk_le (cm : Nat) (fuel : Nat) (s : Snd α) :
+    ∀ f ∈ sendAllFuel cm fuel s, f.size ≤ cm := by
+  induction fuel generalizing s with
+  | zero => simp [sendAllFuel]
+  | succ n ih =>
+    intro f hf
+    have hsz : (emitChunk (min cm s.rem.length) s).1.size ≤ cm := by
+      unfold emitChunk
+      split <;> split <;> simp [DFrame.size, List.length_take] <;> omega
+    unfold sendAllFuel at hf
+    split at hf
+    next f0 heq =>
+      have : f0 = (emitChunk (min cm s.rem.length) s).1 := by rw [heq]
+      simp at hf; subst hf; rw [this]; exact hsz
+    next f0 s' heq =>
+      have : f0 = (emitChunk (min cm s.rem.length) s).1 := by rw [heq]
+      rcases List.mem_cons.mp hf with h | h
+      · subst h; rw [this]; exact hsz
+      · exact ih s' f h
+
 -- non-vacuity: a 5-byte message under windows 2 then 3 (chunkMax 2)
 example : (pump 2 2 (Snd.start [1,2,3,4,5])).1 = [.env 5 [1,2]] := by decide
 example : (parse none [DFrame.env 5 [1,2], .more [3,4], .more [5]]).1 = [[1,2,3,4,5]] := by decide
+-- three messages, the middle one empty, chunkMax 2: five frames, three messages back
+example : [[1,2,3],[],[4]].flatMap (sendAll 2) =
+    [DFrame.env 3 [1,2], .more [3], .env 0 [], .env 1 [4]] := by decide
 
 end Proofs.C01
 
